@@ -8,26 +8,37 @@ Exhaustive enumeration (harness/linmc.cpp) of
            LocalNetwork::remove_inconsistency) x instrument/target heights x
            station orientations x observed-value menu x every status
            combination, each run through LocalLinearization via accept();
-  stage B  3-point networks with 25 observations of all 13 types, fed as XML
-           through GKFparser -> remove_inconsistency -> Acord2 ->
-           refine_obsdh_reductions -> LocalNetwork::project_equations(A,b,w),
-           x every status combination x frames x 4 algorithms.
+  stage B  5-point networks (3 xyz points, a height-only and an xy-only point)
+           with 32 observations of all 13 types, fed as XML through GKFparser ->
+           remove_inconsistency -> Acord2 -> refine_obsdh_reductions ->
+           LocalNetwork::project_equations(A,b,w), x every status combination x
+           frames x 4 algorithms; each network is re-linearised on the same
+           object in every way the API offers (update_*, refine_approx_coordinates
+           after solve, set_algorithm) and the oracle re-evaluated every time.
 Oracle: harness/refobs.h (geometric observation functions in long double,
 Richardson-extrapolated central differences)."""
 import json, os, subprocess, sys
 sys.path.insert(0, os.path.join(os.path.dirname(os.path.abspath(__file__)), "..", "lib"))
 import vlib
 
+STAGE_B = ("stage B: networks of 5 points -- A, B, C with xy and z (9 statuses each), D with a height only (adj=z | adj=Z | fix=z, no xy), E with xy only "
+           "(adj=xy | adj=XY | fix=xy, no z) -- and 32 observations of all 13 types in 7 clusters, fed as XML through GKFparser -> remove_inconsistency -> "
+           "Acord2 -> refine_obsdh_reductions -> project_equations(A,b,w); every network is then re-linearised on the same object after update_points(), "
+           "update_observations(), update_residuals(), solve()+refine_approx_coordinates() (value variant 0: observations consistent with a geometry displaced "
+           "by <= 0.3 m) and set_algorithm(next), in an order rotating with the status code, the whole oracle being evaluated after every build at the current "
+           "approximate coordinates; ")
 RULE_Q = ("stage A: 13 observation types x every ordered placement of from/to(/fs) on the lattice {-100,0,100}^2 x {-30,0,40} (27 points; "
           "zero-length horizontal sights removed by an exact integer test) x offset (5e6,1e6,1000) m x frames {ne/L, en/R consistent; ne/R, en/L "
           "inconsistent} (azimuth: all 16 axes-xy x angles) x from_dh/to_dh {0/0, 1.5/1.5, 1.6/0.2} (s-distance, z-angle) x orientation "
           "{0, 123.4567, 399.9999 gon} (direction) x observed = true + {0, 10cc, +-100gon, 200gon-+1cc, -200gon+-1cc, 399.9999gon | 0, +-3mm} x every "
           "free/fixed/constrained assignment of the xy and z part of each point (angles: 27 xy assignments x 3 uniform z assignments); "
-          "stage B: every ordered triple of horizontally distinct points of {0,100}^2 with heights (0,40,-30) x 729 status combinations x frames {ne/L, ne/R} x "
-          "4 algorithms, offset (5e6,1e6,1000), value variant and sigma-apr cycling; 25 observations per network")
+          + STAGE_B + "enumerated: A at (0,0), B at (0,100), C at (100,0) or (100,100), heights (0,40,-30) x all 9^3*3*3 = 6561 status combinations x "
+          "frames {ne/L, ne/R}, offset (5e6,1e6,1000), first algorithm / value variant / sigma-apr cycling with the status code")
 RULE_T = ("stage A: as quick but lattice {-200..200 step 100}^2 x {-30,0,40} (75 points), offsets {0; (1e5,2e5,300); (5e6,1e6,1000)} and for angles all 729 "
-          "status combinations whenever the three points lie in the inner lattice {-100,0,100}^2; stage B: the quick triples x 729 x 4 frames x 4 algorithms x "
-          "3 offsets x 2 value variants x 2 sigma-apr, plus every ordered triple of horizontally distinct points of {0,100}^2 x {-30,0,40} (648) x 729 x frames {ne/L, ne/R} x 4 algorithms")
+          "status combinations whenever the three points lie in the inner lattice {-100,0,100}^2; "
+          + STAGE_B + "enumerated: every ordered triple of corners of {0,100}^2 with heights (0,40,-30) (24) x 6561 status combinations x 4 frames x 4 algorithms, "
+          "offset / value variant / sigma-apr cycling; plus every ordered triple with any heights from {-30,0,40} (624 more) x 729 statuses of A,B,C (D, E free) x "
+          "frames {ne/L, ne/R} x algorithms {envelope, gso}")
 TAIL = ("; oracle per linearisation: every coefficient = Richardson-extrapolated central difference of the reference observation function in cc/mm "
         "(rel 1e-6, floor 1e-9 x rho/d), no entry and no index for fixed or unrelated coordinates, indices a bijection onto 1..unknowns(), "
         "rhs = observed-computed mod 400 gon with |rhs| <= 200 gon (closed), network rows = reference rows = rows of a LocalLinearization run by the "
@@ -56,7 +67,7 @@ def main():
                   "observed zenith angles are taken in (0,400) gon; a value above 200 gon is a face-II reading (400 gon - z), which is how LocalLinearization::z_angle reads it; entries within 1e-9 rad of 200 gon are left out (face undecidable in floating point)",
                   "observed y / dy rows are compared up to the common factor y_sign: in an inconsistent frame gama adjusts the mirrored observation",
                   "reference: harness/refobs.h in long double; its Richardson error estimate must stay below 1e-9 of the row scale or the case is reported",
-                  "stage B keeps the approximate coordinates given in the input (all points have coordinates) and reads the station orientations computed by Acord2"])
+                  "stage B keeps the approximate coordinates given in the input (all points have coordinates) and reads the station orientations computed by Acord2; after refine_approx_coordinates the linearisation point is read back from the object (must stay within 5 m of the input), and rows with from_dh != to_dh get the documented slack of refine_obsdh_reductions (1e-3 mm / 0.1 cc) on the rhs"])
 
 
 if __name__ == "__main__":
